@@ -35,6 +35,30 @@ def func_body(pp, name):
         i += 1
     return pp[m.end():i]
 
+def entry_flags(b, fn):
+    """scan_flags values an entry point passes to _advance_parsing, in call order. A literal argument is evaluated;
+    an argument that is a local variable is resolved to the constants assigned to it in the function (in source
+    order), and a run of consecutive variable calls is expanded branch by branch (k-th assignment of each variable,
+    in call order) - the rewrite `if (obj) {e=EO; l=LO;} else {e=EA; l=LA;} adv(e) && adv(l)` then yields the
+    same sequence as the four literal calls it replaces. Anything else stops the translator."""
+    calls = re.findall(r'_advance_parsing\(parser,\s*(\([^)]*\)|[A-Za-z_]\w*)\s*,', b)
+    out, run = [], []
+    def flush():
+        if not run: return
+        n = len(run[0])
+        if n == 0 or any(len(v) != n for v in run): die("cannot resolve variable scan flags in " + fn)
+        for k in range(n):
+            for v in run: out.append(v[k])
+        del run[:]
+    for c in calls:
+        if c.startswith('('):
+            flush(); out.append(evalmask(c))
+        else:
+            vals = [evalmask(x) for x in re.findall(r'\b%s\s*=\s*(\([^;]*\)|0x[0-9A-Fa-f]+U?|\d+U?)\s*;' % re.escape(c), b)]
+            run.append(vals)
+    flush()
+    return out
+
 def evalmask(expr):
     expr = re.sub(r'(0x[0-9A-Fa-f]+|\d+)U', r'\1', expr).replace('(', ' ').replace(')', ' ')
     expr = ' '.join(expr.split())
@@ -253,7 +277,7 @@ def main():
     for fn in ['binson_parser_verify', 'binson_parser_next', 'binson_parser_field_with_length', 'binson_parser_go_into_object',
                'binson_parser_leave_object', 'binson_parser_go_into_array', 'binson_parser_leave_array', 'binson_parser_get_raw']:
         b = func_body(pp, fn)
-        fl = [evalmask(x) for x in re.findall(r'_advance_parsing\(parser,\s*\(([^)]*)\)', b)]
+        fl = entry_flags(b, fn)
         if not fl: die("no _advance_parsing call in " + fn)
         entries.append((fn, fl))
 
